@@ -1,6 +1,6 @@
 //! Probe actor: every handler writes ALL of its arguments into the new state and emits commands
-//! that carry them (one Send, one SetTimer / CancelTimer, one ChooseRandom); with `quiet` set the
-//! handlers leave the state borrowed and emit nothing. Generic wrappers cannot inspect the wrapped
+//! that carry them (one Send, one SetTimer / CancelTimer, one ChooseRandom); the `mode` selects
+//! whether a handler changes the state and/or emits commands (see `P`). Generic wrappers cannot inspect the wrapped
 //! actor (parametricity, assumption A-PARAM), so transparency on this probe generalises.
 use stateright::actor::*;
 use std::borrow::Cow;
@@ -18,16 +18,21 @@ pub struct PS<M> {
     pub x: u8,
 }
 
+/// `mode`: 0 = change the state AND emit commands, 1 = do nothing (state stays borrowed, no command),
+/// 2 = emit commands but leave the state borrowed (a stateless responder / heartbeat), 3 = change the
+/// state but emit nothing. A transparent adapter must forward all four shapes unchanged.
 #[derive(Clone, Debug, PartialEq, Eq)]
 pub struct P<M> {
-    pub quiet: bool,
+    pub mode: u8,
     pub _m: PhantomData<M>,
 }
 
 impl<M> P<M> {
-    pub fn new(quiet: bool) -> Self {
-        P { quiet, _m: PhantomData }
+    pub fn new(mode: u8) -> Self {
+        P { mode, _m: PhantomData }
     }
+    fn touches_state(&self) -> bool { self.mode == 0 || self.mode == 3 }
+    fn emits(&self) -> bool { self.mode == 0 || self.mode == 2 }
 }
 
 pub fn idn(id: Id) -> u64 {
@@ -40,38 +45,41 @@ impl<M: Clone + Debug + Eq + Hash> Actor for P<M> {
     type Timer = u8;
     type Random = u8;
     fn on_start(&self, id: Id, o: &mut Out<Self>) -> PS<M> {
-        if !self.quiet {
+        if self.emits() {
             o.set_timer(7, Duration::from_secs(1)..Duration::from_secs(2));
             o.choose_random("s", vec![1, 2]);
         }
-        PS { tag: 0, id: idn(id), src: 0, m: None, x: if self.quiet { 1 } else { 0 } }
+        PS { tag: 0, id: idn(id), src: 0, m: None, x: self.mode }
     }
     fn on_msg(&self, id: Id, s: &mut Cow<PS<M>>, src: Id, m: M, o: &mut Out<Self>) {
-        if self.quiet {
-            return;
-        }
         let x = s.x;
-        *s.to_mut() = PS { tag: 1, id: idn(id), src: idn(src), m: Some(m.clone()), x };
-        o.send(src, m);
-        o.set_timer(x, Duration::from_secs(3)..Duration::from_secs(4));
+        if self.touches_state() {
+            *s.to_mut() = PS { tag: 1, id: idn(id), src: idn(src), m: Some(m.clone()), x };
+        }
+        if self.emits() {
+            o.send(src, m);
+            o.set_timer(x, Duration::from_secs(3)..Duration::from_secs(4));
+        }
     }
     fn on_timeout(&self, id: Id, s: &mut Cow<PS<M>>, t: &u8, o: &mut Out<Self>) {
-        if self.quiet {
-            return;
-        }
         let m = s.m.clone();
-        *s.to_mut() = PS { tag: 2, id: idn(id), src: 0, m, x: *t };
-        o.cancel_timer(*t);
-        o.set_timer(t.wrapping_add(1), Duration::from_secs(5)..Duration::from_secs(6));
+        if self.touches_state() {
+            *s.to_mut() = PS { tag: 2, id: idn(id), src: 0, m, x: *t };
+        }
+        if self.emits() {
+            o.cancel_timer(*t);
+            o.set_timer(t.wrapping_add(1), Duration::from_secs(5)..Duration::from_secs(6));
+        }
     }
     fn on_random(&self, id: Id, s: &mut Cow<PS<M>>, r: &u8, o: &mut Out<Self>) {
-        if self.quiet {
-            return;
-        }
         let m = s.m.clone();
-        *s.to_mut() = PS { tag: 3, id: idn(id), src: 0, m, x: *r };
-        o.choose_random("k", vec![*r]);
-        o.cancel_timer(*r);
+        if self.touches_state() {
+            *s.to_mut() = PS { tag: 3, id: idn(id), src: 0, m, x: *r };
+        }
+        if self.emits() {
+            o.choose_random("k", vec![*r]);
+            o.cancel_timer(*r);
+        }
     }
     fn name(&self) -> String {
         "probe".to_owned()
